@@ -1,25 +1,30 @@
 #!/bin/bash
-# seedtest.sh <PROP>-<mK> [check ids...] : apply a kept seeded change to /repo, run quick checks, undo.
-# Serialised with a lock because it edits /repo's working tree.
+# seedtest.sh <PROP>-<mK> [check ids...] : run quick checks against a kept seeded change.
+# The change is applied to a scratch worktree of /repo's HEAD (never to /repo itself) which the checks are pointed at through
+# REPO / BUILD / VERIF_REPO, so that other work in /verif and /repo is not disturbed. Serialised by a lock (shared build dir).
 set -u
 S="$1"; shift
 D=/verif/seeded/$S
 P=${S%%-*}
 CHECKS="${*:-$P}"
-exec 9>/tmp/seedtest.lock; flock 9
-cd /repo && git diff --quiet || { echo "/repo has local modifications, refusing"; exit 2; }
-git -C /repo apply "$D/patch.diff" || { echo "patch does not apply to current /repo"; exit 2; }
+WT=/var/tmp/vx-seedrun/wt; SB=/var/tmp/vx-seedrun/build
+mkdir -p /var/tmp/vx-seedrun
+exec 9>/var/tmp/vx-seedrun/lock; flock 9
+HEAD=$(git -C /repo rev-parse HEAD)
+if [ ! -d "$WT" ]; then git -C /repo worktree add --detach "$WT" "$HEAD" >/dev/null 2>&1 || exit 2; fi
+git -C "$WT" checkout -q -- . && git -C "$WT" checkout -q --detach "$HEAD" || exit 2
+git -C "$WT" apply "$D/patch.diff" 2>/dev/null || git -C "$WT" apply -3 "$D/patch.diff" 2>/dev/null || { echo "SEEDTEST $S: patch does not apply to current HEAD"; echo "$(date -u +%FT%TZ) $S patch-does-not-apply" >> /verif/seeded/results.log; exit 2; }
 res=""
 for c in $CHECKS; do
-  out=$(cd /verif && VERIF_NO_EVIDENCE=1 timeout 3000 bin/vx check $c --tier ${TIER:-quick} 2>&1); rc=$?
+  out=$(cd /verif && REPO="$WT" VERIF_REPO="$WT" BUILD="$SB" VERIF_NO_EVIDENCE=1 timeout 3000 bin/vx check $c --tier ${TIER:-quick} 2>&1); rc=$?
   nv=$(echo "$out" | grep -c '^VIOLATION')
   echo "--- $S under check $c: exit=$rc violations=$nv"
-  echo "$out" | grep -A3 '^VIOLATION' | head -24
+  echo "$out" | grep -A3 '^VIOLATION' | cut -c1-300 | head -16
   res="$res $c:exit=$rc:viol=$nv"
 done
-git -C /repo checkout -- .
+git -C "$WT" checkout -q -- .
 echo "SEEDTEST $S:$res"
-echo "$(date -u +%FT%TZ) $S tier=${TIER:-quick}$res" >> /verif/seeded/results.log
+echo "$(date -u +%FT%TZ) $S tier=${TIER:-quick} head=${HEAD:0:7}$res" >> /verif/seeded/results.log
 python3 - "$S" "$res" <<'PY'
 import json,sys
 s,res=sys.argv[1],sys.argv[2]
